@@ -65,6 +65,9 @@ def main():
             if meta.get("superseded"):
                 print(f"SKIPPED        {d.name:40s} {meta['superseded'][:160]}")
                 continue
+            if meta.get("not_decided"):      # a stored change the checks do NOT catch, kept on record with the reason (DESIGN.md section 8 / 11)
+                print(f"NOT-DECIDED    {d.name:40s} {meta['not_decided'][:160]}")
+                continue
             muts.append({"id": d.name, "props": [meta["property"]], "patch": d / "patch.diff"})
     else:
         from selftest.mutants import MUTANTS
